@@ -107,6 +107,11 @@ CHECKS = {
                      nontrivial=[r'"ev":"h_port_free"', r'"kind":"client_connect"']),
             life_leg("life_calm", (40, 1000), {"calm": 1, "cancel": 0}, nontrivial=[r'"ev":"h_port_free"']),
             life_leg("life_ldrop", (100, 2000), {"ldrop": 1, "connects": 8, "data": 0}, nontrivial=[r'"what":"listener"']),
+            # port numbers released while connects wait for one (some of the waiters cancelled); accepts cancelled under back-pressure
+            life_leg("life_exhaust", (120, 3000), {"connects": 10, "max_ports": 2}, require={r'"free_ports":\[(true|false),(true|false)\]': 100},
+                     nontrivial=[r'"ev":"api_cancel"']),
+            dict(CT, kind="trace", name="acc_cancel", workload="acc_cancel", n=(120, 3000), opts={}, require={r'"ev":"api_cancel"': 50, r'"kind":"req_accept"': 50},
+                 nontrivial=[r'"ev":"api_cancel"']),
         ],
     },
     "C10": {
@@ -124,6 +129,7 @@ CHECKS = {
                      nontrivial=[r'"err":"local_ports"|"err":"remote_ports"']),
             dict(CT, kind="trace", name="acc_cancel", workload="acc_cancel", n=(120, 3000), opts={}, require={r'"ev":"api_cancel"': 50, r'"kind":"req_accept"': 50},
                  nontrivial=[r'"ev":"api_cancel"', r'"kind":"req_accept"']),
+            life_leg("life_ldrop", (100, 2000), {"ldrop": 1, "connects": 8, "data": 0}, nontrivial=[r'"what":"listener"']),
             life_leg("life_bp", (120, 3000), {"connects": 8, "bp": 1, "max_ports": 3}, require={r'"ev":"backpressure"': 100},
                      nontrivial=[r'"ev":"backpressure"', r'"kind":"req_accept"']),
         ],
@@ -187,6 +193,9 @@ CHECKS = {
             model("ChmuxFault_MC2.cfg", spec="ChmuxFaultMC.tla", min_states=100000, timeout=3600, thorough_only=True),
             dict(CT, kind="trace", name="fault_sweep", workload="fault", n=(2, 20), opts={"stride": 6},
                  require={r'"ev":"fault"': 60, r'"kind":"stall_both"': 5, r'"settled":true': 40}, nontrivial=[r'"ev":"fault"'], max_rounds=4),
+            # the dispatcher dies while a credit return is parked behind a full event queue and a message is still buffered
+            dict(CT, kind="trace", name="ret_fault", workload="ret_cancel", n=(40, 400), opts={"die": 1}, require={r'"ev":"fault"': 30, r'"res":"data"': 60},
+                 nontrivial=[r'"ev":"fault"']),
             dict(CT, kind="trace", name="hs_fault", workload="hs_fault", n=(3, 30), opts={}, require={r'"kind":"mux_new"': 60},
                  nontrivial=[r'"ev":"fault"']),
             dict(CT, kind="trace", name="idle", workload="idle", n=(12, 40), opts={"periods": 150}, require={r'"b":\[3\]': 100},
@@ -247,6 +256,9 @@ CHECKS = {
                  require={r'"ev":"rw_commit_done"': 100, r'"ev":"rw_drop"': 20}, nontrivial=[r'"ev":"rw_commit_done"', r'"kind":"read"']),
             dict(kind="trace", name="rw_remote", workload="rwlock", n=(150, 3000), opts={"remote": 1}, tspec="RwLockTrace.tla", tcfg="RwLockTrace.cfg",
                  require={r'"ep":2': 200, r'"ev":"rw_cancel"': 5}, nontrivial=[r'"ev":"rw_commit_done"', r'"ep":2']),
+            # the remote writer loses its connection right after one of its commits was confirmed: the value must be at the owner
+            dict(kind="trace", name="rw_cut_commit", workload="rwlock", n=(120, 2000), opts={"remote": 1, "cut_commit": 1}, tspec="RwLockTrace.tla", tcfg="RwLockTrace.cfg",
+                 require={r'"after_commit"': 100}, nontrivial=[r'"after_commit"']),
             dict(kind="trace", name="rw_cut", workload="rwlock", n=(60, 1000), opts={"remote": 1, "cut": 1}, tspec="RwLockTrace.tla", tcfg="RwLockTrace.cfg",
                  require={r'"ev":"fault"': 50}, nontrivial=[r'"ev":"fault"']),
         ],
@@ -394,6 +406,14 @@ CHECKS = {
                  require={r'"r":"lagged"': 30, r'"r":"closed"': 100}, nontrivial=[r'"r":"lagged"']),
             dict(kind="trace", name="bcast_remote", workload="bcast", n=(200, 3000), opts={"remote": 1}, tspec="BcastTrace.tla", tcfg="BcastTrace.cfg",
                  require={r'"remote":true': 50}, nontrivial=[r'"r":"lagged"']),
+            # no subscriber keeps up: bursts make everybody lag, then values are sent with long gaps and must reach everybody (re-admission)
+            dict(kind="trace", name="bcast_calm", workload="bcast", n=(150, 2500), opts={"remote": 1, "calm": 1}, tspec="BcastTrace.tla", tcfg="BcastTrace.cfg",
+                 require={r'"ev":"bc_calm"': 150, r'"r":"lagged"': 200}, nontrivial=[r'"r":"lagged"']),
+            dict(kind="trace", name="bcast_calm_local", workload="bcast", n=(100, 1500), opts={"remote": 0, "calm": 1}, tspec="BcastTrace.tla", tcfg="BcastTrace.cfg",
+                 require={r'"ev":"bc_calm"': 100, r'"r":"lagged"': 100}, nontrivial=[r'"r":"lagged"']),
+            # two sender clones used from two OS threads at the same time
+            dict(kind="trace", name="bcast_threads", workload="bcast_threads", n=(40, 400), opts={}, tspec="BcastTrace.tla", tcfg="BcastTrace.cfg",
+                 require={r'"ev":"bt_sub"': 40}, nontrivial=[r'"ev":"bt_sub"']),
             dict(kind="trace", name="bcast_cut", workload="bcast", n=(60, 1000), opts={"remote": 1, "cut": 1}, tspec="BcastTrace.tla", tcfg="BcastTrace.cfg",
                  require={r'"ev":"fault"': 20}, nontrivial=[r'"ev":"fault"']),
         ],
